@@ -163,10 +163,39 @@ func c19Decode(ms schema.ModelSet, enc encoding.EncType, in []byte, validate boo
 }
 
 // conforms: every leaf value of a decoded tree is accepted by its type
+// c19CaseChains: data child name -> the (choice, case) pairs it lies in, outermost first.
+func c19CaseChains(kids []*snode, chain [][2]string, out map[string][][2]string) {
+	for _, k := range kids {
+		if k.kw == "choice" {
+			for _, cs := range k.kids {
+				c19CaseChains(cs.kids, append(append([][2]string{}, chain...), [2]string{k.name, cs.name}), out)
+			}
+			continue
+		}
+		out[k.name] = chain
+	}
+}
+
 func c19Conforms(root *snode, d *dnode, path string, bad *[]string) {
 	by := map[string]*snode{}
 	for _, k := range dataKids(root.kids) {
 		by[k.name] = k
+	}
+	// at most one case of a choice has nodes
+	chains := map[string][][2]string{}
+	c19CaseChains(root.kids, nil, chains)
+	active := map[string]string{} // choice (with its position in the nesting) -> case
+	for _, k := range d.kids {
+		prefix := ""
+		for _, cc := range chains[k.name] {
+			key := prefix + cc[0]
+			if prev, ok := active[key]; ok && prev != cc[1] {
+				*bad = append(*bad, fmt.Sprintf("%s/%s: nodes of two cases of choice %s are present (%s and %s)", path, k.name, cc[0], prev, cc[1]))
+				break
+			}
+			active[key] = cc[1]
+			prefix = key + "/" + cc[1] + "/"
+		}
 	}
 	seen := map[string]bool{}
 	for _, k := range d.kids {
@@ -307,7 +336,15 @@ func (p *c19) Run(tier string, seed int64, idx int) core.CaseResult {
 			if pan {
 				res.Fail("C19/decoded-tree-cannot-be-walked/"+encNames[enc], desc, msg)
 			} else if len(bad) > 0 {
-				res.Fail("C19/decoded-tree-does-not-conform/"+encNames[enc], desc, strings.Join(bad, "\n"))
+				cls := "C19/decoded-tree-does-not-conform/" + encNames[enc]
+				only := true
+				for _, b := range bad {
+					only = only && strings.Contains(b, "nodes of two cases of choice")
+				}
+				if only {
+					cls = "C19/decoded-tree-does-not-conform/two-cases-of-a-choice"
+				}
+				res.Fail(cls, desc, strings.Join(bad, "\n"))
 			}
 		}
 	}
@@ -419,6 +456,52 @@ func (p *c19) Run(tier string, seed int64, idx int) core.CaseResult {
 			if b, pmsg := c19Encode(ms, enc, dup); pmsg == "" {
 				res.Ev("structural_mutations", 1)
 				fuzzOne(enc, b, fmt.Sprintf("tree %d with its first list entry given twice, encoded as", ti))
+			}
+		}
+	}
+	// ---- a node of another case added next to the nodes of the active case
+	for ti, t := range c.trees {
+		mut := t.clone()
+		done := false
+		var walk func(d *dnode, sk []*snode)
+		walk = func(d *dnode, sk []*snode) {
+			if done {
+				return
+			}
+			chains := map[string][][2]string{}
+			c19CaseChains(sk, nil, chains)
+			for _, k := range d.kids {
+				ch := chains[k.name]
+				if len(ch) != 1 || done {
+					continue
+				}
+				// a leaf of a sibling case of the same (outermost) choice
+				for _, cand := range dataKids(sk) {
+					cc := chains[cand.name]
+					if cand.kw == "leaf" && len(cand.vals) > 0 && len(cc) == 1 && cc[0][0] == ch[0][0] && cc[0][1] != ch[0][1] {
+						d.kids = append(d.kids, &dnode{name: cand.name, vals: []string{cand.vals[0]}})
+						done = true
+						break
+					}
+				}
+			}
+			for _, k := range d.kids {
+				for _, ks := range dataKids(sk) {
+					if ks.name == k.name && ks.kw == "container" {
+						walk(k, ks.kids)
+					}
+				}
+			}
+		}
+		walk(mut, root.kids)
+		if !done {
+			continue
+		}
+		for _, enc := range []encoding.EncType{encoding.RFC7951, encoding.JSON, encoding.XML} {
+			if b, pmsg := c19Encode(ms, enc, mut); pmsg == "" {
+				res.Ev("structural_mutations", 1)
+				res.Ev("second_case_mutations", 1)
+				fuzzOne(enc, b, fmt.Sprintf("tree %d with a leaf of a second case of a choice added, encoded as", ti))
 			}
 		}
 	}
